@@ -4,6 +4,7 @@ Line-protocol driver for the C12 model (merge of partial query results above the
   new <id> <n>                         context `id` := MetricContext whose plan has n targets
   resp <id> nf | er | bad              deliver a not-found / other-error / undecodable response
   resp <id> ok <cap> <payload>         deliver a data response
+  complete <id> ok|er                  baseTaskContext.Complete(nil | err) (the search pipeline's completion callback)
   emit <id>                            IntermediateMetricContext.makeTaskResponse
   leaf <r> <cap> <payload>             leaf reduce over the grouped iterators (the `t:` items, in
                                        reduce order) + BuildResultSet for r receivers
@@ -32,7 +33,8 @@ def internIdx (l : List String) (s : String) : List String × Nat :=
   | some i => (l, i)
   | none => (l ++ [s], l.length)
 
-def variant : Variant := ⟨Generated.C12.mergesLaterSpecs, Generated.C12.crossFeeds⟩
+def variant : Variant :=
+  ⟨Generated.C12.mergesLaterSpecs, Generated.C12.crossFeeds, Generated.C12.crossFeedFallback⟩
 
 def getCtx (st : DSt) (id : Nat) : Option Ctx := (st.ctxs.find? (fun p => p.1 == id)).map Prod.snd
 def putCtx (st : DSt) (id : Nat) (c : Ctx) : DSt :=
@@ -311,6 +313,14 @@ def step (st : DSt) (ws : List String) : DSt × String :=
             (putCtx st' id c', showState c')
           | _, _ => (st, "bad-op")
         | _, _ => (st, "bad-op")
+  | ["complete", id, e] =>
+    match id.toNat? with
+    | some id =>
+      match getCtx st id, e with
+      | some c, "ok" => let c' := c.complete none; (putCtx st id c', showState c')
+      | some c, "er" => let c' := c.complete (some .other); (putCtx st id c', showState c')
+      | _, _ => (st, "bad-op")
+    | none => (st, "bad-op")
   | ["emit", id] =>
     match id.toNat? with
     | some id =>
